@@ -111,6 +111,46 @@ def r1(ctx):
               "a datagram the sender legitimately fills to the last bytes must decode (%d length caps inspected)" % n_caps, witness=tight)
 
 
+def _decode_by_evaluation(ctx, fb, fmt1, fmtn):
+    """the message area decode of Packet.from_bytes decided by partial evaluation (engine/minieval.py) on datagrams whose message area
+    is framed with the *writer's* formats: header and packet are stand-in records, AES-GCM is replaced by "cut the tag off", PendingMessage
+    / SeqNum / PacketType by tuple builders.  One message: (seq, header type, body).  n messages: per message its own (length, seq, type)
+    and exactly `length` bytes, in order - bodies that are empty, that look like a frame header, of different lengths.
+    None when the function is outside the evaluator's fragment."""
+    import struct
+    from engine.minieval import MiniEval, Rec
+    PH = ctx.repo.cls("connection:PacketHeader")
+    SIZE, TAG = ctx.folder.class_attr(PH, "SIZE"), ctx.folder.class_attr(PH, "TAG_SIZE")
+    stubs = {"crypto.decrypt_gcm": lambda key, iv, aad, data: bytes(data[:-TAG]) if len(data) >= TAG else b"", "Packet": lambda: Rec("pkt"),
+             "PendingMessage": lambda *a: ("PM",) + tuple(a), "SeqNum": lambda x=0: ("Seq", x), "PacketType": lambda v: ("PT", v)}
+    out = {"cases": 0, "single": [], "multi": []}
+
+    def run(area, count):
+        hdr = Rec("hdr", length=len(area), count=count, pkt_type=("PT", "hdr"), seq=("Seq", 1), ack=("Seq", 0), ack_bits=0, ctime=0, isServer=False)
+        dg = bytes(SIZE) + area + bytes(TAG)
+        r = MiniEval(ctx.repo, ctx.folder, fb, stubs=stubs).call([hdr, b"k" * 16, dg])
+        if r[0] != "return" or not isinstance(r[1], Rec):
+            return repr(r)[:100]
+        return [m for m in r[1].attrs.get("msgs", [])]
+    try:
+        for seq, body in ((7, b"hello"), (65535, b""), (1, struct.pack(fmtn, 3, 9, 2) + b"abc")):
+            out["cases"] += 1
+            got = run(struct.pack(fmt1, seq) + body, 1)
+            want = [("PM", ("Seq", seq), ("PT", "hdr"), body, None, 0)]
+            if got != want:
+                out["single"].append({"seq": seq, "body_length": len(body), "decoded": repr(got)[:160]})
+        for msgs in ([(1, 2, b"ab"), (2, 2, b"")], [(10, 3, b""), (11, 2, struct.pack(fmtn, 1, 1, 1)), (12, 2, b"xyz" * 20)], [(5, 2, b"q")] * 3):
+            out["cases"] += 1
+            area = b"".join(struct.pack(fmtn, len(b), s_, t_) + b for (s_, t_, b) in msgs)
+            got = run(area, len(msgs))
+            want = [("PM", ("Seq", s_), ("PT", t_), b, None, 0) for (s_, t_, b) in msgs]
+            if got != want:
+                out["multi"].append({"messages": [(s_, t_, len(b)) for (s_, t_, b) in msgs], "decoded": repr(got)[:200]})
+    except Undecided:
+        return None
+    return out
+
+
 def _framing(ctx):
     cr, fb = ctx.fn(CR), ctx.fn(FB)
     packs = [s for s in struct_sites(cr, ctx.folder) if s.kind == "pack"]
@@ -323,8 +363,14 @@ def r2(ctx):
             if s2 and s2[0] == sb[0] and s2[2] is None and fold_int(ctx, fb, s2[1]) == a:
                 body_ok = True
         body_ok = body_ok and norm(pm1[0].args[1]).endswith("hdr.pkt_type")
-    ctx.check(ok and body_ok, "C09.R2", fb, "single: seq from msg[:a], body msg[a:], type from the header (a = calcsize = %d)" % a,
-              "the reader strips exactly what the writer prepended", line=u1.lineno)
+    dev = _decode_by_evaluation(ctx, fb, p1.fmt, pn.fmt)
+    if dev is not None:
+        ctx.check(not dev["single"], "C09.R2", fb, "single: seq from msg[:a], body msg[a:], type from the header (a = calcsize = %d)" % a,
+                  "the reader strips exactly what the writer prepended - the decode of Packet.from_bytes evaluated (engine/minieval) on %d message areas framed with the writer's formats" % dev["cases"],
+                  witness=dev["single"][:2], line=u1.lineno)
+    else:
+        ctx.check(ok and body_ok, "C09.R2", fb, "single: seq from msg[:a], body msg[a:], type from the header (a = calcsize = %d)" % a,
+                  "the reader strips exactly what the writer prepended", line=u1.lineno)
     # multi: pack(B, len(msg.payload), msg.seq, msg.type.value) then payload  <-> length, seq, typ = unpack(B, payload[:b]); msg = payload[b:b+length]; payload = payload[b+length:]
     pa = [norm(x) for x in pn.args]
     loopvar = None
@@ -357,9 +403,15 @@ def r2(ctx):
     # reader side: the loop body is interpreted over linear forms in (c, L): c = position of the cursor at the start of an
     # iteration, L = value of the length field.  Re-slicing the remainder (`payload = payload[b+length:]`) and walking with an
     # offset (`unpack_from(fmt, payload, offset)`; `offset += ...`) give the same forms.
-    cm = cursor_model(ctx, fb, un, b)
+    cm = cursor_model(ctx, fb, un, b) if dev is None else None
     sb = None
-    if cm is None:
+    if dev is not None:
+        why_ = "the decode of Packet.from_bytes evaluated (engine/minieval) on %d message areas framed with the writer's formats" % dev["cases"]
+        ctx.check(not dev["multi"], "C09.R2", fb, "multi: (length, seq, type) = unpack of the b = calcsize = %d bytes at the cursor" % b, why_, witness=dev["multi"][:2], line=un.lineno)
+        ctx.check(not dev["multi"], "C09.R2", fb, "multi: body = payload[b:b+length]; advance payload = payload[b+length:]",
+                  "each message is cut by its own length field and the cursor advances past it - " + why_, witness=dev["multi"][:2])
+        ctx.check(not dev["multi"], "C09.R2", fb, "multi: PendingMessage(SeqNum(seq), PacketType(type), body)", why_, witness=dev["multi"][:2])
+    elif cm is None:
         ctx.violated("C09.R2", fb, un.call, "multi: the decode loop is outside the cursor model (linear offsets over one buffer)", line=un.lineno)
     else:
         names = cm["fields"]
